@@ -5,7 +5,7 @@ translate:  tools/translate/typerank.py (enum ValueType::Type order -> TypeConv/
             tools/translate/platforms.py (Platform::set + platforms/*.xml -> Lit/Gen_Platforms.v)
 prove:      coq/theories/Properties_C09.v (setValueType's result type = ISO C under strictly increasing
             widths; refutations with witnesses on the shipped platforms; integer-literal types = ISO C 6.4.4.1 for all platforms and values;
-            every deviation on the shipped platforms has one of five named causes)
+            every deviation on the shipped platforms and on every ordered width assignment has one of four named causes)
 correspond: generated typed expressions (all operand type pairs x operators x platforms x C/C++) through
             `cppcheck --dump --platform=P`: valueType of the operator token vs the extracted model applied to
             the operand types the dump reports; integer literals vs the literal-type model; enumerator values
@@ -36,8 +36,7 @@ TRIPLES = {"unix64": "x86_64-linux-gnu", "unix32": "i686-linux-gnu", "win64": "x
            "win32W": "i686-pc-windows-msvc", "avr8": "avr", "msp430_eabi_large_datamodel": "msp430", "arm32-wchar_t4": "armv7-linux-gnueabihf",
            "riscv32": "riscv32-unknown-elf", "riscv64": "riscv64-unknown-elf", "mips32": "mips-linux-gnu", "aix_ppc64": "powerpc64-ibm-aix"}
 CAUSE_KEY = {1: "rank-only-conversion-equal-width", 2: "unsigned-promotion-equal-width", 3: "c-comparison-typed-bool",
-             4: "c-conditional-small-type-unpromoted", 5: "conditional-same-rank-takes-first-operand",
-             6: "incdec-small-type-typed-int"}
+             4: "c-conditional-small-type-unpromoted"}
 UNARY = [(0, "-a"), (0, "~a"), (1, "a++"), (1, "--a")]   # the tokenizer removes a unary plus
 
 
@@ -240,7 +239,7 @@ def unary_expressions(run, model, wd, pname):
     for i, (k, e, a) in enumerate(cases):
         r, o1 = got.get(i, (None, None))
         t1, s1 = ((o1 or {}).get("valueType-type", "") or "", (o1 or {}).get("valueType-sign", "") or "")
-        ml.append(vlib.enc_case([b"rt1", t1.encode(), s1.encode()]))
+        ml.append(vlib.enc_case([b"rt1", str(k).encode(), t1.encode(), s1.encode()]))
         sl.append(vlib.enc_case([b"spec1", pname.encode(), str(k).encode(), str(a).encode()]))
     rc, mo, me = vlib.run_lines([model], ml)
     rc, so, se = vlib.run_lines([model], sl)
